@@ -167,6 +167,61 @@ Proof.
 Qed.
 Print Assumptions c11_stale_same_row_refuted.
 
+(* ---- opa-fmt / use-rego-v1: the Fmt fix keeps its options (format.Opts) between the files of a run
+        (one shared instance per rule name).  For every parser and formatter (oracles): what Fix returns
+        for a file is a function of that file alone - not of the Rego version left in the options by the
+        files handled before, nor of their order ---- *)
+Theorem c11_fmt_result_independent_of_instance_state : forall parse_module format_ast st1 st2 c,
+  fs_other st1 = fs_other st2 ->
+  snd (fmt_fix parse_module format_ast st1 c) = snd (fmt_fix parse_module format_ast st2 c).
+Proof. exact fmt_fix_state_independent. Qed.
+Print Assumptions c11_fmt_result_independent_of_instance_state.
+
+Theorem c11_fmt_run_history_independent : forall parse_module format_ast cs st,
+  fmt_run parse_module format_ast st cs = map (fun c => snd (fmt_fix parse_module format_ast st c)) cs.
+Proof. exact fmt_run_history_independent. Qed.
+Print Assumptions c11_fmt_run_history_independent.
+
+Theorem c11_fmt_run_any_position : forall parse_module format_ast st pre c post,
+  fmt_run parse_module format_ast st (pre ++ c :: post)
+  = fmt_run parse_module format_ast st pre ++ snd (fmt_fix parse_module format_ast st c)
+                                           :: fmt_run parse_module format_ast st post.
+Proof. exact fmt_run_app. Qed.
+Print Assumptions c11_fmt_run_any_position.
+
+(* the new contents are OPA's formatter output for the version of the module itself (a v0 module: the
+   syntax valid in v0 and v1); nothing is returned exactly when that output is the file *)
+Theorem c11_fmt_effect : forall parse_module format_ast st c out,
+  snd (fmt_fix parse_module format_ast st c) = FmtChanged out ->
+  exists mv, parse_module (fc_version c) (fc_name c) (fc_contents c) = Some mv /\
+             format_ast (fmt_target mv) (fs_other st) (fc_version c) (fc_name c) (fc_contents c) = Some out /\
+             out <> fc_contents c /\ fc_name c <> [].
+Proof. exact fmt_effect. Qed.
+Print Assumptions c11_fmt_effect.
+
+Theorem c11_fmt_nothing_iff_formatted : forall parse_module format_ast st c,
+  snd (fmt_fix parse_module format_ast st c) = FmtNone <->
+  fc_name c <> [] /\
+  exists mv, parse_module (fc_version c) (fc_name c) (fc_contents c) = Some mv /\
+             format_ast (fmt_target mv) (fs_other st) (fc_version c) (fc_name c) (fc_contents c)
+             = Some (fc_contents c).
+Proof. exact fmt_nothing_iff. Qed.
+Print Assumptions c11_fmt_nothing_iff_formatted.
+
+(* regression: a Fix that only ever raises the version found in the options (a high-water mark on a
+   shared instance) gives a v0 file handled after a v1 file another result than the same file alone;
+   the modelled code does not *)
+Theorem c11_fmt_keep_newest_refuted :
+  exists st c1 c0,
+    fmt_run_keep_newest toy_parse toy_format st [c0] <> [] /\
+    (exists o, fmt_run_keep_newest toy_parse toy_format st [c1; c0]
+               = [snd (fmt_fix_keep_newest toy_parse toy_format st c1); o] /\
+               o <> snd (fmt_fix_keep_newest toy_parse toy_format st c0)) /\
+    fmt_run toy_parse toy_format st [c1; c0]
+    = [snd (fmt_fix toy_parse toy_format st c1); snd (fmt_fix toy_parse toy_format st c0)].
+Proof. exact fmt_keep_newest_depends_on_history. Qed.
+Print Assumptions c11_fmt_keep_newest_refuted.
+
 (* ---- non-vacuity ---- *)
 Example c11_ex_uao :
   uao_fix (lit "package p
@@ -194,3 +249,11 @@ Example c11_ex_stale_rows :
   exists ls1, line_step uao_line [lit "a = 1"; lit "b = 2"] {| l_row := 1; l_col := 3 |} = Some ls1 /\
               line_step uao_line ls1 {| l_row := 2; l_col := 3 |} = Some [lit "a := 1"; lit "b := 2"].
 Proof. eexists. vm_compute. split; reflexivity. Qed.
+
+Example c11_ex_fmt :
+  fmt_run toy_parse toy_format {| fs_version := RvV1; fs_other := 0 |}
+    [{| fc_name := [112%N]; fc_contents := [49%N]; fc_version := RvUndef |};
+     {| fc_name := [113%N]; fc_contents := [48%N]; fc_version := RvUndef |};
+     {| fc_name := []; fc_contents := [48%N]; fc_version := RvUndef |}]
+  = [FmtChanged [3%N; 49%N]; FmtChanged [2%N; 48%N]; FmtErr].
+Proof. vm_compute. reflexivity. Qed.
